@@ -1,11 +1,17 @@
-// C14 (completion, engine H): BFS over histories of request / deliver-response / duplicate / unknown-id / advance-clock
-// on two REAL jsonrpc::Rpc peers wired back-to-back through in-memory send callbacks, on a real event loop driven
-// single-threaded on a VIRTUAL monotonic clock (1 s tick).
-//   usage: rpc_harness <proto: raw|header|packet> <engine: epoll|select> <timeout_sec, 0 = Rpc's default (30)> <depth>
+// C14 (completion, engine H): BFS over histories of request / deliver-response / duplicate / unknown-id / advance-clock /
+// cleanup+initialize / request in the opposite direction, on two REAL jsonrpc::Rpc peers wired back-to-back through in-memory
+// send callbacks, on a real event loop driven single-threaded on a VIRTUAL monotonic clock (1 s tick).
+//   usage: rpc_harness <proto: raw|header|packet> <engine: epoll|select> <timeout_sec, 0 = Rpc's default (30)> <depth> [optional ops: r,b,rb,-]
+//          rpc_harness lane          deterministic lane (outside the BFS): many pending requests, re-entrant deliveries from callbacks
 // Oracle (reference model, kept boring): a request issued with a completion callback is pending until either a
-// response with its id is delivered (-> callback(errcode, result) exactly then) or the TimeoutMonitor ring has
-// ticked timeout_sec times since it was added (-> callback(kRequestTimeout, null) in exactly that tick). Nothing
-// else may invoke a callback: duplicates, late responses, unknown / future / zero ids are ignored.
+// response with its id is delivered (-> callback(errcode, result) exactly then; a service that answers synchronously
+// delivers it inside request()) or the TimeoutMonitor ring has ticked timeout_sec times since it was added
+// (-> callback(kRequestTimeout, null) in exactly that tick). Nothing else may invoke a callback: duplicates, late
+// responses, unknown / future / zero ids, responses with the same numeric id travelling in the other direction are ignored.
+// Rpc::cleanup() + initialize() starts a second session: requests of the first session are never called back afterwards
+// (READING: cleanup() may either drop them silently - what the code does - or complete them with an error while it runs;
+// both satisfy "never twice, never later"), responses carrying their ids are ignored, and requests of the second session
+// complete exactly like those of the first, timeouts included.
 #include "hist/hist.h"
 #include <tbox/base/json.hpp>
 #include <tbox/event/loop.h>
@@ -20,7 +26,9 @@
 #include <sys/select.h>
 #include <sys/syscall.h>
 #include <sys/time.h>
+#include <map>
 #include <memory>
+#include <set>
 
 using tbox::Json;
 using namespace tbox::event;
@@ -43,148 +51,356 @@ extern "C" int epoll_wait(int epfd, struct epoll_event *ev, int maxev, int timeo
 extern "C" int select(int nfds, fd_set *r, fd_set *w, fd_set *e, struct timeval *tv) {
   struct timeval z = {0, 0}; if (!(tv && tv->tv_sec == 0 && tv->tv_usec == 0)) g_would_block++; return (int)syscall(SYS_select, nfds, r, w, e, &z);
 }
+struct Virt { Virt() { g_virt = true; g_mono_ms = 5000000; } ~Virt() { g_virt = false; } };
 
-enum Kind { REQ, RSP, UNK, ADV };
+static Proto *mk_proto(const std::string &p) { if (p == "raw") return new RawStreamProto; if (p == "header") return new HeaderStreamProto(0x3e5a); return new PacketProto; }
+
+enum Kind { REQ, RSP, UNK, ADV, REINIT, BREQ, BRSP };
+// how a request is issued / answered / what its completion callback does
+enum Beh { PLAIN = 0,       // request(method, params, cb); the peer's service defers its answer (respond() later)
+           FOLLOW = 1,      // as PLAIN; the completion callback issues a follow-up request
+           SYNC_RES = 2,    // the peer's service answers synchronously with a result: the response arrives INSIDE request()
+           SYNC_ERR = 3,    // ... synchronously with an error code
+           NO_METHOD = 4,   // the peer has no such method: it answers kMethodNotFound synchronously
+           SYNC_FOLLOW = 5, // SYNC_RES whose completion callback (running inside request()) issues a follow-up request
+           NOTIFY_OVL = 6,  // notify(method, params) + notify(method) first, then the request(method, cb) overload without params
+           NBEH };
+static const char *BEHN[] = {"plain", "cb-issues-followup", "peer-answers-synchronously", "peer-answers-synchronously-with-error", "unknown-method",
+                             "peer-answers-synchronously+cb-issues-followup", "after-two-notifications,no-params-overload"};
 struct Op { int k, a, b; };
-static const int MAXREQ = 3;
+static const int MAXREQ = 3;         // requests A -> B per history
+static const int BREQ_SLOT = MAXREQ; // the single request B -> A is reported as request #MAXREQ
 static int g_timeout = 2, g_timeout_arg = 2, g_adv_steps = 1;
+static unsigned g_beh_mask = 0x7f;   // request behaviours on the menu (bit per Beh)
+static bool g_reinit = true, g_breq = true;
 
 // ---- reference model ----------------------------------------------------------------------------------------
 struct Ev { int req; int errcode; int val; };      // callback of request #req with (errcode, result == {"r":val} or null if val<0)
 static bool operator==(const Ev &a, const Ev &b) { return a.req == b.req && a.errcode == b.errcode && a.val == b.val; }
-struct MReq { int beh; bool pending; int remaining; int done_code; };   // remaining = ticks until the ring drops the id (0 = gone)
+struct MReq { int beh; bool pending; int remaining; };   // remaining = ticks until the ring drops the id (0 = gone)
 struct Model {
-  std::vector<MReq> r;
-  void issue(int beh) { r.push_back(MReq{beh, true, g_timeout, 0}); }
+  std::vector<MReq> r; bool reinit_done = false;
+  bool b_issued = false; MReq bq{0, false, 0};
   void complete(int i, int code, int val, std::vector<Ev> &exp, std::vector<int> &chain) {
-    r[i].pending = false; r[i].done_code = code; exp.push_back(Ev{i, code, val}); if (r[i].beh == 1) chain.push_back(i); }
-  void settle(std::vector<int> &chain) { for (size_t c = 0; c < chain.size(); c++) if ((int)r.size() < MAXREQ) issue(0); chain.clear(); }
+    r[i].pending = false; exp.push_back(Ev{i, code, val}); if (r[i].beh == FOLLOW || r[i].beh == SYNC_FOLLOW) chain.push_back(i); }
+  void issue(int beh, std::vector<Ev> &exp, std::vector<int> &chain) {
+    r.push_back(MReq{beh, true, g_timeout}); int i = (int)r.size() - 1;
+    if (beh == SYNC_RES || beh == SYNC_FOLLOW) complete(i, 0, i, exp, chain);
+    else if (beh == SYNC_ERR) complete(i, 100 + i, -1, exp, chain);
+    else if (beh == NO_METHOD) complete(i, ErrorCode::kMethodNotFound, -1, exp, chain);
+  }
+  // follow-up requests are PLAIN (never complete synchronously), so one round settles the chain
+  void settle(std::vector<Ev> &exp, std::vector<int> &chain) { std::vector<int> none; for (size_t c = 0; c < chain.size(); c++) if ((int)r.size() < MAXREQ) issue(PLAIN, exp, none); chain.clear(); }
   // one op; returns the callbacks that must happen during it
   std::vector<Ev> step(const Op &o) {
     std::vector<Ev> exp; std::vector<int> chain;
     switch (o.k) {
-      case REQ: if ((int)r.size() < MAXREQ) issue(o.a); break;
-      case RSP: if (o.a < (int)r.size() && r[o.a].pending) { if (o.b == 0) complete(o.a, 0, o.a, exp, chain); else complete(o.a, 100 + o.a, -1, exp, chain); settle(chain); } break;
+      case REQ: if ((int)r.size() < MAXREQ) { issue(o.a, exp, chain); settle(exp, chain); } break;
+      case RSP: if (o.a < (int)r.size() && r[o.a].pending) { if (o.b == 0) complete(o.a, 0, o.a, exp, chain); else complete(o.a, 100 + o.a, -1, exp, chain); settle(exp, chain); } break;
       case UNK: break;
       case ADV: for (int s = 0; s < g_adv_steps; s++) {
-          bool any = false; for (auto &x : r) if (x.remaining > 0) any = true;
-          if (!any) continue;                                   // monitor timer is off while the ring is empty
           size_t n = r.size();
           for (size_t i = 0; i < n; i++) if (r[i].remaining > 0 && --r[i].remaining == 0 && r[i].pending) complete((int)i, ErrorCode::kRequestTimeout, -1, exp, chain);
-          settle(chain); }
+          settle(exp, chain);
+          if (bq.remaining > 0 && --bq.remaining == 0 && bq.pending) { bq.pending = false; exp.push_back(Ev{BREQ_SLOT, ErrorCode::kRequestTimeout, -1}); } }
         break;
+      case REINIT: reinit_done = true; for (auto &x : r) { x.pending = false; x.remaining = 0; } break;   // session 1 is over: nothing of it may complete any more
+      case BREQ: if (!b_issued) { b_issued = true; bq = MReq{PLAIN, true, g_timeout}; } break;
+      case BRSP: if (b_issued && bq.pending) { bq.pending = false; exp.push_back(Ev{BREQ_SLOT, 0, 50}); } break;
     }
     return exp;
+  }
+  std::string canon() const {   // only what can influence the future: pending requests (countdown, whether completion chains), the request budget
+    std::string c; for (auto &x : r) { if (x.pending) c += ((x.beh == FOLLOW || x.beh == SYNC_FOLLOW) ? "F" : "p") + std::to_string(x.remaining); else c += "d"; c += ","; }
+    c += reinit_done ? "|R" : "|-"; c += !b_issued ? "|-" : bq.pending ? "|p" + std::to_string(bq.remaining) : "|d";
+    return c;
   }
 };
 
 // ---- the real thing ------------------------------------------------------------------------------------------
+static int result_val(const Json &res) { if (res.is_object() && res.contains("r") && res["r"].is_number_integer()) return res["r"].get<int>(); return res.is_null() ? -1 : -2; }
+
 struct World {
   Loop *loop = nullptr; std::unique_ptr<Proto> pa, pb; std::unique_ptr<Rpc> a, b;
-  std::vector<int> peer_ids;            // ids under which peer B received request #i
+  int peer_ids[MAXREQ];                 // id under which peer B's service received request #i (-1: not received)
+  int wire_ids[MAXREQ];                 // id A used on the wire for a request the peer's services never saw (unknown method)
+  int a_peer_id = -1;                   // id under which A's service received B's request
+  int notes = 0;                        // notifications seen by B's service
   std::vector<Ev> events; int issued = 0; std::string viol;
   std::vector<int> beh;
-  static Proto *mk(const std::string &p) { if (p == "raw") return new RawStreamProto; if (p == "header") return new HeaderStreamProto(0x3e5a); return new PacketProto; }
+  void init_a() { if (g_timeout_arg > 0) a->initialize(pa.get(), g_timeout_arg); else a->initialize(pa.get());
+    a->addService("s", [this](int id, const Json &, int &, Json &) { if (a_peer_id > 0 && viol.empty()) viol = "peer-request-delivered-twice"; a_peer_id = id; return false; }); }
   World(const std::string &proto, const std::string &engine) {
-    loop = Loop::New(engine); pa.reset(mk(proto)); pb.reset(mk(proto)); a.reset(new Rpc(loop)); b.reset(new Rpc(loop));
-    if (g_timeout_arg > 0) { a->initialize(pa.get(), g_timeout_arg); b->initialize(pb.get(), g_timeout_arg); } else { a->initialize(pa.get()); b->initialize(pb.get()); }
+    for (int i = 0; i < MAXREQ; i++) peer_ids[i] = wire_ids[i] = -1;
+    loop = Loop::New(engine); pa.reset(mk_proto(proto)); pb.reset(mk_proto(proto)); a.reset(new Rpc(loop)); b.reset(new Rpc(loop));
+    init_a();
+    if (g_timeout_arg > 0) b->initialize(pb.get(), g_timeout_arg); else b->initialize(pb.get());
     pa->setSendCallback([this](const void *d, size_t n) { ssize_t r = pb->onRecvData(d, n); if (r != (ssize_t)n) viol = "request-not-consumed-by-peer ret=" + std::to_string(r); });
     pb->setSendCallback([this](const void *d, size_t n) { ssize_t r = pa->onRecvData(d, n); if (r != (ssize_t)n) viol = "response-not-consumed-by-requester ret=" + std::to_string(r); });
-    b->addService("m", [this](int id, const Json &params, int &, Json &) {
-      int n = -1; if (params.is_object() && params.contains("n") && params["n"].is_number_integer()) n = params["n"].get<int>();
-      if (n != (int)peer_ids.size()) viol = "peer-received-a-different-request-than-sent";
-      peer_ids.push_back(id); return false; });                   // answered later by respond()
+    auto svc = [this](bool has_params) { return [this, has_params](int id, const Json &params, int &errcode, Json &result) {
+      if (id == 0) { notes++; return false; }                      // a notification
+      int n = -1, sync = 0;
+      if (has_params) { if (params.is_object() && params.contains("n") && params["n"].is_number_integer()) n = params["n"].get<int>();
+                        if (params.is_object() && params.contains("sync")) sync = params["sync"].get<int>(); }
+      else n = params.is_null() ? issued - 1 : -1;                  // the overload without params: nothing travels, the newest request it must be
+      if (n != issued - 1 || n < 0 || n >= MAXREQ || peer_ids[n] >= 0) { if (viol.empty()) viol = "peer-received-a-different-request-than-sent"; return false; }
+      peer_ids[n] = id;
+      if (sync == 1) { result = Json::object(); result["r"] = n; return true; }
+      if (sync == 2) { errcode = 100 + n; return true; }
+      return false; }; };                                           // answered later by respond()
+    b->addService("m", svc(true)); b->addService("q", svc(false));
   }
   void request(int b_) {
     if (issued >= MAXREQ) return;
     int i = issued++; beh.push_back(b_);
     Json params = Json::object(); params["n"] = i;
-    a->request("m", params, [this, i](int errcode, const Json &res) {
-      int val = -1; if (res.is_object() && res.contains("r") && res["r"].is_number_integer()) val = res["r"].get<int>(); else if (!res.is_null()) val = -2;
-      events.push_back(Ev{i, errcode, val});
-      if (beh[i] == 1) request(0);                                 // a completion that issues a follow-up request
-    });
-    if ((int)peer_ids.size() != issued && viol.empty()) viol = "request-not-delivered-to-peer";
+    if (b_ == SYNC_RES || b_ == SYNC_FOLLOW) params["sync"] = 1; else if (b_ == SYNC_ERR) params["sync"] = 2;
+    auto cb = [this, i](int errcode, const Json &res) {
+      events.push_back(Ev{i, errcode, result_val(res)});
+      if (beh[i] == FOLLOW || beh[i] == SYNC_FOLLOW) request(PLAIN);   // a completion that issues a follow-up request
+    };
+    if (b_ == NO_METHOD) { a->request("nosuch", params, cb); wire_ids[i] = a->id_alloc_; }
+    else if (b_ == NOTIFY_OVL) { int n0 = notes; Json np = Json::object(); np["n"] = -1; a->notify("m", np); a->notify("m");
+      if (notes != n0 + 2 && viol.empty()) viol = "notification-not-delivered-to-peer-exactly-once";
+      a->request("q", cb); }
+    else a->request("m", params, cb);
+    if (viol.empty() && b_ != NO_METHOD && peer_ids[i] < 0) viol = "request-not-delivered-to-peer";
+    if (viol.empty() && b_ == NO_METHOD && peer_ids[i] >= 0) viol = "peer-received-a-different-request-than-sent";
   }
   void pass() { loop->runNext([] {}); loop->runLoop(Loop::Mode::kOnce); }
   void apply(const Op &o) {
     switch (o.k) {
       case REQ: request(o.a); break;
-      case RSP: if (o.a < (int)peer_ids.size()) { if (o.b == 0) { Json res = Json::object(); res["r"] = o.a; b->respond(peer_ids[o.a], res); } else b->respond(peer_ids[o.a], 100 + o.a); } break;
-      case UNK: { Json res = Json::object(); res["r"] = 9;
-        if (o.a == 0) b->respond(a->id_alloc_ + 1, res);           // an id that has not been issued yet
-        else if (o.a == 1) b->respond(1000, 55);                   // error reply with an id never issued
-        else pb->sendResult(0, res); } break;                      // id 0
+      case RSP: if (o.a < issued) { int id = peer_ids[o.a] >= 0 ? peer_ids[o.a] : wire_ids[o.a]; if (id <= 0) break;
+          if (o.b == 0) { Json res = Json::object(); res["r"] = o.a; b->respond(id, res); } else b->respond(id, 100 + o.a); } break;
+      case UNK: { Json res = Json::object(); res["r"] = 9;           // three responses nobody asked for, one after the other
+        b->respond(a->id_alloc_ + 1, res);                         // an id that has not been issued yet
+        b->respond(1000, 55);                                      // error reply with an id never issued
+        pb->sendResult(0, res); pb->sendError(0, 55);              // id 0
+        pb->sendResult(-1, res); } break;                          // a negative id
       case ADV: for (int s = 0; s < g_adv_steps; s++) { g_mono_ms += 1000; pass(); } break;
+      case REINIT: { a->cleanup();
+        // the transport keeps delivering while the Rpc is gone (its borrowed proto has no receive callbacks now): a result and an
+        // error for an id of session 1, and a request; all must be swallowed
+        Json res = Json::object(); res["r"] = 0; pb->sendResult(1, res); pb->sendError(2, 77); pb->sendRequest(9, "s", res);
+        init_a(); } break;
+      case BREQ: if (a_peer_id < 0) { Json p = Json::object(); p["k"] = 1;
+          b->request("s", p, [this](int errcode, const Json &res) { events.push_back(Ev{BREQ_SLOT, errcode, result_val(res)}); });
+          if (a_peer_id < 0 && viol.empty()) viol = "peer-request-not-delivered"; } break;
+      case BRSP: if (a_peer_id > 0) { Json res = Json::object(); res["r"] = 50; a->respond(a_peer_id, res); } break;
     }
   }
   template <class TM> static std::string ring(TM &m) {
     std::string s; if (!m.curr_item_) return "none"; auto *it = m.curr_item_;
     do { s += '['; for (int v : it->items) s += std::to_string(v) + ","; s += ']'; it = it->next; } while (it != m.curr_item_);
-    return s + "n" + std::to_string(m.value_number_) + (m.sp_timer_->isEnabled() ? "E" : "d");
+    return s + "n" + std::to_string(m.value_number_) + (m.sp_timer_->isEnabled() ? "E" : "d") + (m.cb_ ? "" : "!nocb");
+  }
+  static std::string side(Rpc &r) {
+    std::string c = "id" + std::to_string(r.id_alloc_) + " cb{"; std::vector<int> ks; for (auto &kv : r.request_callback_) ks.push_back(kv.first); std::sort(ks.begin(), ks.end());
+    for (int k : ks) c += std::to_string(k) + ","; c += "} tbr{"; ks.assign(r.tobe_respond_.begin(), r.tobe_respond_.end()); std::sort(ks.begin(), ks.end()); for (int k : ks) c += std::to_string(k) + ",";
+    c += "} " + ring(r.request_timeout_) + "/" + ring(r.respond_timeout_) + " svc" + std::to_string(r.method_services_.size());
+    return c;
   }
   std::string canon() {
-    std::string c = "A:id" + std::to_string(a->id_alloc_) + " cb{"; std::vector<int> ks; for (auto &kv : a->request_callback_) ks.push_back(kv.first); std::sort(ks.begin(), ks.end());
-    for (int k : ks) c += std::to_string(k) + ","; c += "} " + ring(a->request_timeout_) + "/" + ring(a->respond_timeout_);
-    c += " B:{"; ks.assign(b->tobe_respond_.begin(), b->tobe_respond_.end()); std::sort(ks.begin(), ks.end()); for (int k : ks) c += std::to_string(k) + ","; c += "} " + ring(b->respond_timeout_) + "/" + ring(b->request_timeout_);
+    std::string c = "A:" + side(*a) + " B:" + side(*b);
     CommonLoop *cl = static_cast<CommonLoop *>(loop); std::vector<long> due; for (auto *t : cl->timer_min_heap_) due.push_back((long)((int64_t)t->expired - g_mono_ms)); std::sort(due.begin(), due.end());
     c += " T:"; for (long d : due) c += std::to_string(d) + ",";
+    c += " W:"; for (int i = 0; i < MAXREQ; i++) c += std::to_string(peer_ids[i]) + "/" + std::to_string(wire_ids[i]) + ","; c += std::to_string(a_peer_id);
     return c;
   }
   ~World() { a->cleanup(); b->cleanup(); a.reset(); b.reset(); loop->cleanup(); delete loop; }
 };
 
-struct Virt { Virt() { g_virt = true; g_mono_ms = 5000000; } ~Virt() { g_virt = false; } };
+// ---- deterministic lane (outside the BFS): sizes and re-entrancy the 3-request BFS cannot reach -------------------------------
+// N pending requests (the pending map of the real Rpc grows through several rehashes / node splits), deliveries made from
+// INSIDE completion callbacks (while the Rpc is iterating its expired ids or holding a position in its pending map).
+// Oracle, by a local reference table: every request's callback exactly once; with its own response if that was delivered before
+// the tick in which it expires; with kRequestTimeout in exactly the tick its ring slot comes round if no response was delivered;
+// and - READING - either of the two when the response is delivered re-entrantly during that very tick (order within a tick is
+// not promised).
+struct Lane {
+  Loop *loop; std::unique_ptr<Proto> pa, pb; std::unique_ptr<Rpc> a, b;
+  struct R { int calls = 0, code = 0, val = 0, peer_id = -1, issued_tick = 0, done_tick = -1; bool sync = false; };
+  std::vector<R> rq; int tick = 0; std::string viol; long execs = 0;
+  std::function<void(int idx, int errcode)> hook;      // scenario: what a completion callback does
+  int timeout;
+  Lane(const std::string &proto, const std::string &engine, int tmo) : timeout(tmo) {
+    loop = Loop::New(engine); pa.reset(mk_proto(proto)); pb.reset(mk_proto(proto)); a.reset(new Rpc(loop)); b.reset(new Rpc(loop));
+    a->initialize(pa.get(), tmo); b->initialize(pb.get(), tmo);
+    pa->setSendCallback([this](const void *d, size_t n) { if (pb->onRecvData(d, n) != (ssize_t)n && viol.empty()) viol = "request-not-consumed-by-peer"; });
+    pb->setSendCallback([this](const void *d, size_t n) { if (pa->onRecvData(d, n) != (ssize_t)n && viol.empty()) viol = "response-not-consumed-by-requester"; });
+    b->addService("m", [this](int id, const Json &params, int &, Json &result) {
+      int n = params.is_object() && params.contains("n") ? params["n"].get<int>() : -1;
+      if (n < 0 || n >= (int)rq.size() || rq[n].peer_id >= 0) { if (viol.empty()) viol = "peer-received-a-different-request-than-sent"; return false; }
+      rq[n].peer_id = id;
+      if (rq[n].sync) { result = Json::object(); result["r"] = n; return true; }
+      return false; });
+  }
+  ~Lane() { a->cleanup(); b->cleanup(); a.reset(); b.reset(); loop->cleanup(); delete loop; }
+  int issue(bool sync = false) {
+    int i = (int)rq.size(); rq.push_back(R()); rq[i].sync = sync; rq[i].issued_tick = tick; execs++;
+    Json p = Json::object(); p["n"] = i;
+    a->request("m", p, [this, i](int errcode, const Json &res) { R &x = rq[i]; x.calls++; x.code = errcode; x.val = result_val(res); x.done_tick = tick; if (hook) hook(i, errcode); });
+    if (rq[i].peer_id < 0 && viol.empty()) viol = "request-not-delivered-to-peer";
+    return i;
+  }
+  void respond(int i) { execs++; Json res = Json::object(); res["r"] = i; b->respond(rq[i].peer_id, res); }
+  void advance() { tick++; g_mono_ms += 1000; execs++; loop->runNext([] {}); loop->runLoop(Loop::Mode::kOnce); }
+};
+static long g_lane_states = 0, g_lane_execs = 0, g_lane_viols = 0;
+static void lane_viol(const std::string &sig, const std::string &where, const std::string &detail) {
+  g_lane_viols++; printf("@VIOL sig=%s :: lane %s: %s\n", sig.c_str(), where.c_str(), detail.c_str());
+}
+// judges request i: may_result = its own response was delivered in time, may_timeout = a timeout in tick timeout_tick is acceptable (both: the in-tick reading)
+static bool lane_judge(Lane &w, const std::string &where, int i, bool may_result, bool may_timeout, int timeout_tick) {
+  Lane::R &x = w.rq[i]; char d[200];
+  snprintf(d, sizeof d, "request #%d (issued in tick %d): calls=%d code=%d val=%d done_tick=%d", i, x.issued_tick, x.calls, x.code, x.val, x.done_tick);
+  if (x.calls == 0) { lane_viol(may_result && !may_timeout ? "completion-callback-missing-on-matching-response" : "completion-callback-missing-at-timeout-deadline", where, d); return false; }
+  if (x.calls > 1) { lane_viol("completion-callback-invoked-again-lane", where, d); return false; }
+  bool is_res = x.code == 0 && x.val == i, is_tmo = x.code == ErrorCode::kRequestTimeout && x.val == -1 && x.done_tick == timeout_tick;
+  if (!((may_result && is_res) || (may_timeout && is_tmo))) {
+    lane_viol(x.code == ErrorCode::kRequestTimeout ? (may_timeout ? "completion-callback-timeout-in-the-wrong-tick-lane" : "completion-callback-invoked-unexpectedly-timeout-before-deadline") : "completion-callback-with-wrong-outcome-lane", where, d);
+    return false; }
+  return true;
+}
+static void run_lane(const std::string &proto, const std::string &engine, int tmo, bool reentrant_dup) {
+  char tag[120];
+  for (int N : {2, 20, 60}) {
+    // L1: N pending; the response to #0 arrives; its callback issues 15 follow-ups (the pending map is re-hashed while the Rpc
+    // still holds its position in it); then the others are answered in reverse order, then every response is duplicated
+    { Virt vt; Lane w(proto, engine, tmo); snprintf(tag, sizeof tag, "L1 %s/%s timeout=%d N=%d", proto.c_str(), engine.c_str(), tmo, N);
+      for (int i = 0; i < N; i++) w.issue();
+      w.hook = [&](int idx, int) { if (idx == 0) for (int k = 0; k < 15; k++) w.issue(); };
+      w.respond(0);
+      for (int i = N - 1; i >= 1; i--) w.respond(i);
+      for (int i = 0; i < N; i++) w.respond(i);                                  // duplicates
+      for (int t = 0; t < tmo + 2; t++) w.advance();
+      for (int i = 0; i < N + 15; i++) w.respond(i);                             // late
+      bool ok = w.viol.empty(); if (!ok) lane_viol(w.viol, tag, "");
+      if ((int)w.rq.size() != N + 15) { ok = false; lane_viol("harness-lane-follow-ups-not-issued", tag, std::to_string(w.rq.size())); }
+      for (int i = 0; ok && i < (int)w.rq.size(); i++) ok = i < N ? lane_judge(w, tag, i, true, false, 0) : lane_judge(w, tag, i, false, true, tmo);
+      if (ok) printf("@OUTCOME lane L1 N=%d: every one of N+15 callbacks exactly once (N results, 15 follow-up timeouts in tick %d)\n", N, tmo);
+      g_lane_states++; g_lane_execs += w.execs; }
+    // L2: half of N issued in tick 0, the other half in tick 1 (all in tick 0 when timeout_sec == 1); nothing is answered. The FIRST timeout
+    // callback that runs makes the peer answer every other request (re-entrantly, while the Rpc walks the expired slot) and issues 15 follow-ups.
+    { Virt vt; Lane w(proto, engine, tmo); snprintf(tag, sizeof tag, "L2 %s/%s timeout=%d N=%d", proto.c_str(), engine.c_str(), tmo, N);
+      bool fired = false; int first = -1;
+      w.hook = [&](int idx, int errcode) { if (fired || errcode != ErrorCode::kRequestTimeout) return; fired = true; first = idx;
+        for (int i = 0; i < N; i++) if (i != idx) w.respond(i);
+        for (int k = 0; k < 15; k++) w.issue(); };
+      for (int i = 0; i < N / 2; i++) w.issue();
+      if (tmo >= 2) w.advance();
+      for (int i = N / 2; i < N; i++) w.issue();
+      for (int t = 0; t < 2 * tmo + 3; t++) w.advance();
+      for (int i = 0; i < (int)w.rq.size(); i++) w.respond(i);                 // late
+      bool ok = w.viol.empty(); if (!ok) lane_viol(w.viol, tag, "");
+      if (ok && !fired) { ok = false; lane_viol("completion-callback-missing-at-timeout-deadline", tag, "no timeout callback at all"); }
+      if (ok && (int)w.rq.size() != N + 15) { ok = false; lane_viol("harness-lane-follow-ups-not-issued", tag, std::to_string(w.rq.size())); }
+      int ft = ok ? w.rq[first].done_tick : 0;                                  // the tick in which the others were answered
+      for (int i = 0; ok && i < (int)w.rq.size(); i++) {
+        int due = w.rq[i].issued_tick + tmo;
+        if (i == first || i >= N) ok = lane_judge(w, tag, i, false, true, due);  // unanswered: timeout in exactly its tick
+        else ok = lane_judge(w, tag, i, due >= ft, due <= ft, due);              // answered in tick ft: before its tick -> result; in its tick -> either; after -> timeout
+      }
+      if (ok) printf("@OUTCOME lane L2 N=%d: first timeout callback answered the others re-entrantly; every callback exactly once\n", N);
+      g_lane_states++; g_lane_execs += w.execs; }
+    // L3: a chain of N requests, each answered synchronously by the peer's service inside request(), each completion callback
+    // issuing the next one (re-entrancy depth N)
+    { Virt vt; Lane w(proto, engine, tmo); snprintf(tag, sizeof tag, "L3 %s/%s timeout=%d N=%d", proto.c_str(), engine.c_str(), tmo, N);
+      w.hook = [&](int, int) { if ((int)w.rq.size() < N) w.issue(true); };
+      w.issue(true);
+      for (int t = 0; t < tmo + 2; t++) w.advance();
+      bool ok = w.viol.empty(); if (!ok) lane_viol(w.viol, tag, "");
+      if ((int)w.rq.size() != N) { ok = false; lane_viol("completion-callback-missing-on-matching-response", tag, "chain stopped at " + std::to_string(w.rq.size())); }
+      for (int i = 0; ok && i < (int)w.rq.size(); i++) ok = lane_judge(w, tag, i, true, false, 0);
+      if (ok) printf("@OUTCOME lane L3 N=%d: chain of synchronously answered requests, every callback exactly once, none at the later ticks\n", N);
+      g_lane_states++; g_lane_execs += w.execs; }
+    // L4 (switch C14_REENTRANT_DUP=1, DEFAULT OFF because the unchanged library fails it - see the check's report): the completion callback of #0
+    // delivers a copy of #0's own response re-entrantly: (a) from inside the response callback (a duplicate), (b) from inside the timeout callback (a late response)
+    if (reentrant_dup) for (int variant = 0; variant < 2; variant++) { Virt vt; Lane w(proto, engine, tmo); snprintf(tag, sizeof tag, "L4%c %s/%s timeout=%d N=%d", 'a' + variant, proto.c_str(), engine.c_str(), tmo, N);
+      for (int i = 0; i < N; i++) w.issue();
+      bool once = false; w.hook = [&](int idx, int) { if (idx != 0) return;
+        if (w.rq[0].calls > 1) { lane_viol("completion-callback-invoked-again-by-response-delivered-from-inside-the-callback", tag, "calls=" + std::to_string(w.rq[0].calls)); fflush(stdout); }
+        if (!once) { once = true; w.respond(0); } };
+      hx::set_current(std::string("lane ") + tag + (variant ? ": #0 times out, its callback delivers #0's response" : ": #0 answered, its callback delivers the same response again"));
+      if (variant == 0) w.respond(0); else for (int t = 0; t < tmo; t++) w.advance();
+      if (!w.viol.empty()) lane_viol(w.viol, tag, "");
+      g_lane_states++; g_lane_execs += w.execs; }
+  }
+}
 
 int main(int argc, char **argv) {
   std::string proto = argc > 1 ? argv[1] : "raw", engine = argc > 2 ? argv[2] : "epoll";
+  if (proto == "lane") {
+    hx::install_crash_reporter("C14-rpc-lane-crash");
+    bool dup = hx::env_int("C14_REENTRANT_DUP", 0) != 0;
+    for (const char *p : {"raw", "header", "packet"}) for (const char *e : {"epoll", "select"}) for (int t : {1, 2, 3}) {
+      hx::set_current(std::string("lane ") + p + "/" + e + " timeout=" + std::to_string(t));
+      run_lane(p, e, t, dup); }
+    printf("@INFO lane: 3 protos x 2 engines x timeout {1,2,3} x N {2,20,60} x scenarios L1 (answer first, callback issues 15 follow-ups, reverse answers, duplicates, late), "
+           "L2 (first timeout callback answers all others re-entrantly + 15 follow-ups), L3 (chain of N synchronously answered requests)%s\n", dup ? ", L4 (duplicate delivered from inside the callback)" : "");
+    printf("@STAT states=%ld transitions=%ld executions=%ld violations=%ld\n", g_lane_states, g_lane_execs, g_lane_execs, g_lane_viols);
+    return 0;
+  }
   g_timeout_arg = argc > 3 ? atoi(argv[3]) : 2; size_t depth = argc > 4 ? atoi(argv[4]) : 7;
   g_timeout = g_timeout_arg > 0 ? g_timeout_arg : 30;        // Rpc::initialize(proto, timeout_sec = 30)
   g_adv_steps = g_timeout >= 10 ? 10 : 1;                     // with the 30 s default one "advance" op is ten 1-s ticks
+  // argv[5]: optional ops on the menu, 'r' = cleanup+initialize, 'b' = a request in the opposite direction (default both)
+  std::string opt = argc > 5 ? argv[5] : "rb"; g_reinit = opt.find('r') != std::string::npos; g_breq = opt.find('b') != std::string::npos;
+  g_beh_mask = (unsigned)hx::env_int("C14_BEH_MASK", 127);
   hx::install_crash_reporter("C14-rpc-crash");
-  hx::Explorer<Op> ex; ex.name = "rpc-" + proto + "-" + engine + "-timeout" + std::to_string(g_timeout);
+  hx::Explorer<Op> ex; ex.name = "rpc-" + proto + "-" + engine + "-timeout" + std::to_string(g_timeout) + (g_reinit ? "+reinit" : "") + (g_breq ? "+peerreq" : "");
   ex.deadline_s = hx::deadline_from_env(600);
   ex.fork_workers = (int)hx::env_int("VERIF_WORKERS", 0);
-  ex.show = [](const Op &o) { char b[64];
-    if (o.k == REQ) snprintf(b, sizeof b, "request(%s)", o.a ? "cb-issues-followup" : "plain");
+  ex.show = [](const Op &o) { char b[96];
+    if (o.k == REQ) snprintf(b, sizeof b, "request(%s)", BEHN[o.a]);
     else if (o.k == RSP) snprintf(b, sizeof b, "deliver(#%d,%s)", o.a, o.b ? "error" : "result");
-    else if (o.k == UNK) snprintf(b, sizeof b, "deliver(%s)", o.a == 0 ? "future-id" : o.a == 1 ? "id1000-error" : "id0");
+    else if (o.k == UNK) snprintf(b, sizeof b, "deliver(future-id,id1000-error,id0,id0-error,id-1)");
+    else if (o.k == REINIT) snprintf(b, sizeof b, "cleanup+deliveries-while-down+initialize");
+    else if (o.k == BREQ) snprintf(b, sizeof b, "peer-requests");
+    else if (o.k == BRSP) snprintf(b, sizeof b, "answer-peer-request");
     else snprintf(b, sizeof b, "advance(%ds)+pass", g_adv_steps);
     return std::string(b); };
   ex.menu = [&](const std::vector<Op> &h) {
     Model m; for (auto &o : h) m.step(o);
     std::vector<Op> v;
-    if ((int)m.r.size() < MAXREQ) { v.push_back({REQ, 0, 0}); v.push_back({REQ, 1, 0}); }
+    if ((int)m.r.size() < MAXREQ) for (int bh = 0; bh < NBEH; bh++) if (g_beh_mask >> bh & 1) v.push_back({REQ, bh, 0});
     for (int i = 0; i < (int)m.r.size(); i++) { v.push_back({RSP, i, 0}); v.push_back({RSP, i, 1}); }
     v.push_back({ADV, 0, 0});
-    for (int u = 0; u < 3; u++) v.push_back({UNK, u, 0});
+    if (g_reinit && !m.reinit_done) v.push_back({REINIT, 0, 0});
+    if (g_breq) { if (!m.b_issued) v.push_back({BREQ, 0, 0}); else v.push_back({BRSP, 0, 0}); }
+    v.push_back({UNK, 0, 0});
     return v; };
   ex.run = [&](const std::vector<Op> &h, std::string &viol) {
     Virt vt; Model m; World w(proto, engine);
-    std::vector<int> calls(MAXREQ, 0);
+    std::vector<int> calls(MAXREQ + 1, 0);
     for (size_t n = 0; n < h.size() && viol.empty(); n++) {
+      std::vector<bool> was_pending; for (auto &x : m.r) was_pending.push_back(x.pending);
       std::vector<Ev> exp = m.step(h[n]);
       w.events.clear(); w.apply(h[n]);
       if (!w.viol.empty()) { viol = w.viol; break; }
       // every callback seen during this op must be expected, and every expected one seen, exactly once
       for (auto &e : w.events) {
-        if (e.req < 0 || e.req >= MAXREQ) { viol = "callback-for-unknown-request"; break; }
+        if (e.req < 0 || e.req > MAXREQ) { viol = "callback-for-unknown-request"; break; }
         calls[e.req]++;
         bool expected = false; for (auto &x : exp) if (x.req == e.req) expected = true;
-        if (calls[e.req] > 1) { viol = std::string("completion-callback-invoked-again-") + (h[n].k == ADV ? "by-timeout-after-completion" : h[n].k == RSP ? "by-duplicate-or-late-response" : "by-unrelated-op"); break; }
-        if (!expected) { viol = std::string("completion-callback-invoked-unexpectedly-") + (h[n].k == ADV ? "timeout-before-deadline" : h[n].k == UNK ? "by-unknown-id-response" : "by-op"); break; }
+        if (calls[e.req] > 1) { viol = std::string("completion-callback-invoked-again-") + (h[n].k == ADV ? "by-timeout-after-completion" : (h[n].k == RSP || h[n].k == BRSP) ? "by-duplicate-or-late-response" : h[n].k == REINIT ? "by-cleanup" : "by-unrelated-op"); break; }
+        // reading: cleanup() may complete the requests it abandons with an error while it runs (the code drops them silently)
+        if (h[n].k == REINIT && e.req < (int)was_pending.size() && was_pending[e.req] && e.errcode != 0) continue;
+        if (!expected) { viol = std::string("completion-callback-invoked-unexpectedly-") + (h[n].k == ADV ? "timeout-before-deadline" : h[n].k == UNK ? "by-unknown-id-response" :
+                                  h[n].k == REINIT ? "by-delivery-while-cleaned-up" : (h[n].k == RSP && m.reinit_done) ? "by-response-to-a-request-of-the-previous-session" :
+                                  (h[n].k == BRSP || h[n].k == BREQ) ? "by-traffic-in-the-other-direction" : "by-op"); break; }
         for (auto &x : exp) if (x.req == e.req && !(x == e)) { viol = "completion-callback-with-wrong-outcome got(err=" + std::to_string(e.errcode) + ",val=" + std::to_string(e.val) + ") want(err=" + std::to_string(x.errcode) + ",val=" + std::to_string(x.val) + ")"; }
       }
       if (!viol.empty()) break;
       for (auto &x : exp) { bool seen = false; for (auto &e : w.events) if (e.req == x.req) seen = true;
-        if (!seen) { viol = x.errcode == ErrorCode::kRequestTimeout ? "completion-callback-missing-at-timeout-deadline" : "completion-callback-missing-on-matching-response"; break; } }
+        if (!seen) { viol = x.errcode == ErrorCode::kRequestTimeout ? (m.reinit_done && x.req < MAXREQ ? "completion-callback-missing-at-timeout-deadline-after-reinitialize" : "completion-callback-missing-at-timeout-deadline")
+                          : h[n].k == REQ ? "completion-callback-missing-on-response-arriving-inside-request" : "completion-callback-missing-on-matching-response"; break; } }
       if (!viol.empty()) break;
       if (w.issued != (int)m.r.size()) { viol = "harness-model-and-world-disagree-on-issued-requests"; break; }
       // (the implementation's pending map is part of the canonical state but is not judged: only callbacks are observable)
     }
-    std::string c = w.canon();
-    c += " M:"; for (auto &x : m.r) c += std::to_string(x.beh) + (x.pending ? "p" : "d") + std::to_string(x.remaining) + "c" + std::to_string(x.done_code) + ",";
-    return c;
+    return w.canon() + " M:" + m.canon();
   };
   ex.explore(depth);
   printf("@STAT virtual_clock_reads=%ld would_block_polls=%ld\n", g_clock_reads, g_would_block);
